@@ -929,14 +929,22 @@ class Unit:
         # (kept per unit: clause objects are shared between the unit that verifies a function and the
         # units that use the same contract as a stub)
         cprops = {}
+        def _toks(c):
+            return [t for t in re.match(r"((?:C\d\d-)*)", c.label).group(1).strip("-").split("-") if t]
+        # what the function's own labelled / tagged clauses serve (requires are not counted: they are caller obligations)
+        served = set()
+        for c in clauses:
+            if getattr(c, "kind", "ensures") != "requires":
+                served |= set(c.props or _toks(c))
         for c in clauses:
             if c.props:
                 cprops[c.label] = sorted(c.props)
             else:
                 # a label that starts with property ids belongs to exactly those properties; an unlabelled clause
-                # (frame, wf, helper definitions) to the properties of its function / unit
-                toks = [t for t in re.match(r"((?:C\d\d-)*)", c.label).group(1).strip("-").split("-") if t]
-                cprops[c.label] = sorted(set(toks)) if toks else sorted(set(props))
+                # (frame, wf, helper definitions) to the properties the function's labelled clauses serve, and only
+                # when there are none to the properties of its function / unit
+                toks = _toks(c)
+                cprops[c.label] = sorted(set(toks)) if toks else sorted(served or set(props))
         self.fns[fid] = {"kind": kind, "clauses": {c.label: c for c in clauses}, "props": props,
                          "clause_props": cprops, "lemma": lemma, "obj": obj}
 
